@@ -175,8 +175,10 @@ class CollectionAttrMutator(metaclass=ABCMeta):
             return self
         if self.collection and self.prepare_item:
             # `_prepare_items` edits the collection in place, and at this point
-            # it may still be the caller's own object.
-            self.collection = protect_via_deepcopy(self.collection)
+            # it may still be the caller's own object (attributes that opted out
+            # of copying keep sharing it).
+            if not self.attr_spec.do_not_copy:
+                self.collection = protect_via_deepcopy(self.collection)
             self._prepare_items()
         return self
 
